@@ -182,6 +182,12 @@ def _all_semi_directed_paths_graph(
                 visited.popitem()  # maybe other ways to child
         else:  # len(visited) == cutoff:
             for target in (targets & (set(nbrs) | {nbr})) - set(visited.keys()):
+                # the remaining neighbors were not drawn yet, so the arrowhead check
+                # above has not been applied to them
+                if G.has_edge(target, prev_node, directed_edge_name) or G.has_edge(
+                    target, prev_node, bidirected_edge_name
+                ):
+                    continue
                 yield list(visited) + [target]
             stack.pop()
             visited.popitem()
